@@ -68,6 +68,11 @@ non-constant ... - REJECTS THE CLASS (it is then simply not tied; the header of 
 A class of the REQUIRED list (those Pat/StepSrc.v has a proof for) that is rejected makes the generator exit 3: the check
 reports a broken proof obligation, never a silent default.
 
+The methods of the base class that the generated terms call as primitives - Pattern.value (pvalue), Pattern.reset
+(reset_field), Pattern.pattern (patternify), the default Pattern.__next__ - are transcribed by hand in Pat/Step.v; their
+normalised source text is PINNED in harness/gen_tables_step.pin and compared on every run (exit 3 on a difference;
+`gen_tables_step.py <out> --write-pin` after the model has been revisited).
+
 Trusted (hand-written) in the translation: this file, i.e. the reading of the Python statement forms above; the table
 BINOPS (which operator class is which `PBinOp o`); the helper functions of Pat/Val.v / Pat/Step.v the terms refer to
 (py_eq truthy py_abs py_int py_index zlen reset_field patternify is_none MAXSIZE)."""
@@ -109,6 +114,9 @@ for _c in ["PSeries", "PRange", "PGeom", "PImpulse", "PCounter", "PStutter", "PP
     REQUIRED |= {(_c, "next"), (_c, "reset"), (_c, "init")}
 REQUIRED |= {("PReverse", "next"), ("PSequence", "next"), ("PSequence", "reset")}
 REQUIRED |= {("PSubsequence", m) for m in ("next", "reset", "init")}
+for _c in ["PReset", "PIndexOf", "PConcatenate", "PArrayIndex", "PDictKey"]:
+    REQUIRED |= {(_c, "reset"), (_c, "init")}
+REQUIRED |= {("PDict", "reset")}
 
 COQ_RESERVED = {"end", "in", "let", "fun", "match", "with", "if", "then", "else", "return", "as", "at", "fix", "forall",
                 "exists", "Type", "Prop", "Set", "using", "where", "for", "cofix"}
@@ -774,6 +782,7 @@ def translate_class(modules, ctors, fname, cname):
     if len(nodes) != 1:
         raise Reject("%d definitions of class %s in %s" % (len(nodes), cname, fname))
     chain = class_chain(modules, nodes[0])
+    check_class_body(chain)
     k = Klass()
     k.name, k.has_loops, k.reset_translated = cname, False, False
     if cname in BINOPS:
@@ -904,6 +913,53 @@ def translate_class(modules, ctors, fname, cname):
     return k, results
 
 
+PRIMITIVES = ("value", "reset", "pattern", "__next__")
+PIN_FILE = os.path.join(HERE, "gen_tables_step.pin")
+
+
+def primitives_text(core_tree):
+    """normalised source (docstrings removed) of the methods of class Pattern that the model transcribes BY HAND
+    (Step.value / Step.anext, reset_field, patternify, the default __next__) and the generated terms refer to"""
+    P = [c for c in core_tree.body if isinstance(c, ast.ClassDef) and c.name == "Pattern"]
+    if len(P) != 1:
+        raise Reject("core.py: %d definitions of class Pattern" % len(P))
+    out = []
+    for name in PRIMITIVES:
+        fs = [n for n in ast.walk(P[0]) if isinstance(n, (ast.FunctionDef, ast.AsyncFunctionDef)) and n.name == name]
+        if len(fs) != 1 or fs[0] not in P[0].body or not isinstance(fs[0], ast.FunctionDef):
+            raise Reject("Pattern.%s: %d definitions" % (name, len(fs)))
+        fn = fs[0]
+        body = [st for st in fn.body if not (isinstance(st, ast.Expr) and isinstance(st.value, ast.Constant) and isinstance(st.value.value, str))]
+        out.append("\n".join(["@" + ast.unparse(d) for d in fn.decorator_list] + ["def %s(%s):" % (fn.name, ast.unparse(fn.args))] +
+                             ["    " + l for st in body for l in ast.unparse(st).splitlines()]))
+    return "\n".join(out) + "\n"
+
+
+def check_primitives(core_tree):
+    import difflib
+    got = primitives_text(core_tree)
+    want = open(PIN_FILE).read()
+    if got != want:
+        diff = "".join(difflib.unified_diff(want.splitlines(True), got.splitlines(True), "pinned", "source", n=1))
+        raise Reject("a method of the base class Pattern that the model transcribes by hand (Pattern.value / reset / pattern / "
+                     "__next__) differs from the pinned text harness/gen_tables_step.pin; revisit Pat/Step.v (value, anext, "
+                     "reset_field, patternify) and then the pin:\n" + diff[:1500])
+
+
+def check_class_body(chain):
+    """nothing but methods, docstrings and plain class attributes; the three translated methods are not rebound"""
+    for c in chain:
+        for st in c.body:
+            if isinstance(st, ast.FunctionDef):
+                continue
+            if isinstance(st, ast.Expr) and isinstance(st.value, ast.Constant) and isinstance(st.value.value, str):
+                continue
+            if (isinstance(st, ast.Assign) and all(isinstance(t, ast.Name) and not t.id.startswith("__") and t.id != "reset" for t in st.targets)
+                    and isinstance(st.value, (ast.Constant, ast.Name, ast.Attribute))):
+                continue
+            raise Reject("class %s: statement in the class body not understood: %s" % (c.name, src_line(st)))
+
+
 def comment(text):
     return text.replace("(*", "( *").replace("*)", "* )").replace('"', "'")
 
@@ -913,6 +969,9 @@ def main(out_path):
     modules = {}
     for fname in ("core.py", "sequence.py", "scalar.py"):
         modules[fname] = ast.parse(open(os.path.join(repo, "isobar", "pattern", fname)).read())
+    if len(sys.argv) > 2 and sys.argv[2] == "--write-pin":
+        open(PIN_FILE, "w").write(primitives_text(modules["core.py"]))
+    check_primitives(modules["core.py"])
     ctors = model_constructors(os.path.join(os.path.dirname(HERE), "coq", "Pat", "Syntax.v"))
     body, summary, failed_required = [], [], []
     for fname, cname in WANTED:
